@@ -2,104 +2,137 @@
 
 E3: explicit-state BFS over histories that interleave seeded screen objects, seeded
 function calls, unseeded calls and noise on NumPy's global random state.  Reference
-model: a table of the exact bytes every seeded artefact must have (kind, seed, number of
-rows added), built in isolation.  After EVERY transition every live seeded object and
-every seeded function result must equal its table entry bit for bit, and seeded operations
-must leave the global random state untouched.
+model: a table of the exact bytes every seeded artefact must have (kind, parameters, seed,
+number of rows added); EVERY table entry is generated in its own pristine forked process,
+so nothing another call left behind (caches, shared generators) can leak into it.  After
+EVERY transition every live seeded object and every seeded function result must equal its
+table entry bit for bit, and seeded operations must leave the global random state untouched.
+
+Four operation families share the machinery:
+  main   two seeds, both screen kinds, Generator-as-seed, unseeded objects, global-RNG noise
+  vkp    von Karman screens that differ from a base screen in exactly ONE parameter
+         (r0, L0, pixel scale, size, stencil depth), same seed -> exposes state keyed on a subset
+         of the parameters (e.g. a cache of the A/B matrices that forgets r0)
+  frp    the same for the Fried variant
+  ftp    seeded FFT screens (plain and sub-harmonic) under single-parameter variations
 """
 import numpy
 
 from mc import Out, Case
 from mc import statespace as ss
 from mc.core import digest
+from mc.isolate import isolated_map
 
 PROPERTY = "C06"
 LEVEL = "model_checking"
+ISOLATE_CASES = True     # every case starts from a pristine process: verdicts do not depend on which case ran before
 ENGINES = ["E3-explicit-state-history-search"]
 TECHNIQUE = ("explicit-state breadth-first search over interleaved operation histories on several live screen "
              "objects and NumPy's global RNG, each reached state compared bit-for-bit with a reference table "
-             "built in isolation")
-RULE = ("case = first operation of the history (root branch); from there BFS over the whole operation alphabet "
-        "to the depth bound, de-duplicated on the canonical state (seeded objects by content, unseeded objects "
-        "by kind and age, global RNG state, module globals); non-trivial = histories containing at least one "
-        "noise operation between two reproductions (counted per transition)")
+             "whose every entry was generated in its own pristine process")
+RULE = ("case = (family, first operation of the history); from there BFS over the family's whole operation "
+        "alphabet to the depth bound, de-duplicated on the canonical state (seeded objects by content, unseeded "
+        "objects by kind and age, global RNG state, module globals); non-trivial = transitions whose history "
+        "contains at least one operation on ANOTHER object / a noise operation before the reproduction")
 ASSUMPTIONS = [
     "unseeded objects draw from OS entropy; their content is abstracted to (kind, rows added) in the state hash - "
     "sound for this property because every executed transition re-checks every seeded object against the table",
-    "depth bound per tier; at most one live object per slot (4 seeded slots + 1 unseeded slot)",
+    "depth bound per tier; at most one live object per slot",
     "process-level sources of interference (threads, other processes) are not modelled",
-    "small screens (vK 4x4, Fried 3x3, FFT 4x4 / 8x8): the property is about state isolation, not size",
+    "small screens (vK 4x4/5x5, Fried 3x3/5x5, FFT 4x4/8x8): the property is about state isolation, not size",
+    "'unseeded calls differ' is required in every history, including histories that put NumPy's global generator "
+    "into the same state before both calls (the property quantifies over changes to the global state)",
 ]
-LEVEL_TEXT = ("Every interleaving (to depth 4 quick / 6 thorough) of constructing/advancing four seeded infinite "
-              "screens, seeded FFT screens, unseeded calls and global-RNG noise operations is executed on the "
-              "real code; all seeded artefacts are compared bit for bit with their isolated reference after "
-              "every transition and the global random state is part of the explicit state.")
-LEVEL_NOTE = ("Trusted: copy.deepcopy snapshots, numpy bit comparison. Not covered: histories deeper than the bound, "
-              "more than one object per slot, parameters other than the listed ones.")
+LEVEL_TEXT = ("Every interleaving (to depth 4 quick / 6 thorough in the main family, 4/5 in the parameter-variant "
+              "families) of constructing/advancing seeded infinite screens, seeded FFT screens, unseeded calls and "
+              "global-RNG noise operations is executed on the real code; all seeded artefacts are compared bit for "
+              "bit with references generated in pristine processes after every transition, and the global random "
+              "state and the module globals are part of the explicit state.")
+LEVEL_NOTE = ("Trusted: copy.deepcopy snapshots, os.fork isolation, numpy bit comparison. Not covered: histories "
+              "deeper than the bound, more than one object per slot, parameters other than the listed ones.")
 
-VK = (4, 0.1, 0.2, 25.0)
-FR = (3, 0.1, 0.2, 25.0)
-FT = (0.2, 4, 0.1, 25.0, 0.01)
-SEEDED_SLOTS = ["vk1", "vk2", "fr1", "vkG"]
+VKB = dict(nx=4, ps=0.1, r0=0.2, L0=25.0, sd=2)
+FRB = dict(nx=3, ps=0.1, r0=0.2, L0=25.0, sd=4)
+FTB = dict(r0=0.2, N=4, delta=0.1, L0=25.0, l0=0.01)
 
 
-def _depth(tier):
-    return 4 if tier == "quick" else 6
+def _var(base, **kw):
+    d = dict(base)
+    d.update(kw)
+    return d
+
+
+# slot -> (kind, params, seed spec)
+SLOTS = {
+    "main": {
+        "vk1": ("vk", VKB, 1), "vk2": ("vk", VKB, 2), "fr1": ("fr", FRB, 1), "vkG": ("vk", VKB, "G1"),
+        "vkN": ("vk", VKB, None),
+    },
+    "vkp": {
+        "vkA": ("vk", VKB, 1), "vkB": ("vk", _var(VKB, r0=0.1), 1), "vkC": ("vk", _var(VKB, L0=10.0), 1),
+        "vkD": ("vk", _var(VKB, ps=0.2), 1), "vkE": ("vk", _var(VKB, nx=5), 1), "vkF": ("vk", _var(VKB, sd=1), 1),
+    },
+    "frp": {
+        "frA": ("fr", FRB, 1), "frB": ("fr", _var(FRB, r0=0.1), 1), "frC": ("fr", _var(FRB, L0=10.0), 1),
+        "frD": ("fr", _var(FRB, ps=0.2), 1), "frE": ("fr", _var(FRB, nx=5), 1), "frF": ("fr", _var(FRB, sd=2), 1),
+    },
+    "ftp": {},
+}
+# function ops -> (function, params, seed spec)
+FUNCS = {
+    "main": {"ft1": ("ft", FTB, 1), "ftsh1": ("ftsh", FTB, 1), "ftG": ("ft", FTB, "G7"),
+             "ftN": ("ft", FTB, None), "ftshN": ("ftsh", FTB, None)},
+    "vkp": {}, "frp": {},
+    "ftp": {},
+}
+for _f in ("ft", "ftsh"):
+    for _name, _p in (("A", FTB), ("B", _var(FTB, r0=0.1)), ("C", _var(FTB, delta=0.2)), ("D", _var(FTB, L0=10.0)),
+                      ("E", _var(FTB, l0=0.1)), ("F", _var(FTB, N=8))):
+        FUNCS["ftp"][_f + _name] = (_f, _p, 1)
+NOISE_OPS = ["np_seed0", "np_seed5", "np_normal3", "opt_grouping", "np_shuffle"]
+
+
+def _depth(tier, family):
+    if family == "main":
+        return 4 if tier == "quick" else 6
+    if family == "ftp":
+        return 3 if tier == "quick" else 4
+    return 4 if tier == "quick" else 5
+
+
+BIG_SEEDS = [2 ** 31, 2 ** 32, 2 ** 32 + 1, 2 ** 33, 2 ** 63 - 1, 2 ** 64, 2 ** 64 + 3, 10 ** 30]
 
 
 def BOUNDS(tier):
-    return {"depth": _depth(tier), "ops": OPS, "vk_params": VK, "fried_params": FR, "ft_params": FT,
-            "distinct_seeds": list(range(32))}
+    return {"depth": {f: _depth(tier, f) for f in SLOTS}, "families": {f: _ops(f) for f in SLOTS},
+            "distinct_seeds": "0..31 and " + ", ".join(str(s) for s in BIG_SEEDS)}
 
 
-OPS = ["new_vk1", "new_vk2", "new_fr1", "new_vkG", "new_vkN",
-       "row_vk1", "row_vk2", "row_fr1", "row_vkG", "row_vkN",
-       "ft1", "ftsh1", "ftG", "ftN", "ftshN",
-       "np_seed0", "np_seed5", "np_normal3", "opt_grouping", "np_shuffle"]
-NOISE = {"np_seed0", "np_seed5", "np_normal3", "opt_grouping", "np_shuffle", "ftN", "ftshN", "new_vkN", "row_vkN"}
-SEEDED_OPS = {"new_vk1", "new_vk2", "new_fr1", "new_vkG", "row_vk1", "row_vk2", "row_fr1", "row_vkG",
-              "ft1", "ftsh1", "ftG"}
+def _ops(family):
+    ops = ["new_" + s for s in SLOTS[family]] + ["row_" + s for s in SLOTS[family]] + list(FUNCS[family])
+    if family == "main":
+        ops += NOISE_OPS
+    return ops
 
 
-def cases(tier):
-    for op in OPS:
-        if op.startswith("row_"):
-            continue     # no object alive at the root
-        yield Case("hist:first=%s:depth=%d" % (op, _depth(tier)), {"kind": "hist", "first": op,
-                                                                  "depth": _depth(tier)}, True)
-    for kind in ("ft", "ftsh", "vk", "fried"):
-        yield Case("distinct_seeds:%s" % kind, {"kind": "distinct", "what": kind})
-    yield Case("unseeded_differ", {"kind": "unseeded"})
+def _seed_obj(spec):
+    if isinstance(spec, str) and spec.startswith("G"):
+        return numpy.random.Generator(numpy.random.PCG64(int(spec[1:])))
+    return spec
 
 
-def _new(slot):
+def _new(kind, p, seed):
     from aotools.turbulence import infinitephasescreen as ips
-    if slot == "vk1":
-        return ips.PhaseScreenVonKarman(*VK, random_seed=1)
-    if slot == "vk2":
-        return ips.PhaseScreenVonKarman(*VK, random_seed=2)
-    if slot == "fr1":
-        return ips.PhaseScreenKolmogorov(*FR, random_seed=1)
-    if slot == "vkG":
-        return ips.PhaseScreenVonKarman(*VK, random_seed=numpy.random.Generator(numpy.random.PCG64(1)))
-    if slot == "vkN":
-        return ips.PhaseScreenVonKarman(*VK, random_seed=None)
-    raise KeyError(slot)
+    if kind == "vk":
+        return ips.PhaseScreenVonKarman(p["nx"], p["ps"], p["r0"], p["L0"], random_seed=_seed_obj(seed), n_columns=p["sd"])
+    return ips.PhaseScreenKolmogorov(p["nx"], p["ps"], p["r0"], p["L0"], random_seed=_seed_obj(seed),
+                                     stencil_length_factor=p["sd"])
 
 
-def _fn(op):
+def _fn(kind, p, seed):
     from aotools.turbulence import phasescreen as ps
-    if op == "ft1":
-        return ps.ft_phase_screen(*FT, seed=1)
-    if op == "ftsh1":
-        return ps.ft_sh_phase_screen(*FT, seed=1)
-    if op == "ftG":
-        return ps.ft_phase_screen(*FT, seed=numpy.random.Generator(numpy.random.PCG64(7)))
-    if op == "ftN":
-        return ps.ft_phase_screen(*FT, seed=None)
-    if op == "ftshN":
-        return ps.ft_sh_phase_screen(*FT, seed=None)
-    raise KeyError(op)
+    f = ps.ft_phase_screen if kind == "ft" else ps.ft_sh_phase_screen
+    return f(p["r0"], p["N"], p["delta"], p["L0"], p["l0"], seed=_seed_obj(seed))
 
 
 def _bytes(a):
@@ -107,30 +140,72 @@ def _bytes(a):
     return (str(a.dtype), a.shape, numpy.ascontiguousarray(a).tobytes())
 
 
-def _table(depth):
-    """reference model: every seeded artefact generated in isolation"""
-    t = {}
-    for slot in SEEDED_SLOTS:
-        obj = _new(slot)
-        t[(slot, 0)] = _bytes(obj.scrn)
-        for r in range(1, depth + 1):
-            obj.add_row()
-            t[(slot, r)] = _bytes(obj.scrn)
-    for op in ("ft1", "ftsh1", "ftG"):
-        t[op] = _bytes(_fn(op))
-    return t
+# ----------------------------------------------------------------------------- reference table
+
+def _table_slot(family, slot, depth):
+    kind, p, seed = SLOTS[family][slot]
+    obj = _new(kind, p, seed)
+    out = [_bytes(obj.scrn)]
+    for _ in range(depth):
+        obj.add_row()
+        out.append(_bytes(obj.scrn))
+    return out
+
+
+def _table_func(family, op):
+    kind, p, seed = FUNCS[family][op]
+    return _bytes(_fn(kind, p, seed))
+
+
+_TABLE = None
+
+
+def setup(tier):
+    """every reference artefact in its own pristine forked child of this (pristine) parent"""
+    global _TABLE
+    jobs, keys = [], []
+    for family in SLOTS:
+        for slot, (kind, p, seed) in SLOTS[family].items():
+            if seed is None:
+                continue
+            jobs.append((0, family, slot, _depth(tier, family)))
+            keys.append((family, slot))
+        for op, (kind, p, seed) in FUNCS[family].items():
+            if seed is None:
+                continue
+            jobs.append((1, family, op, 0))
+            keys.append((family, op))
+    res = isolated_map(_table_job, jobs)
+    _TABLE = dict(zip(keys, res))
+
+
+def _table_job(which, family, name, depth):
+    return _table_slot(family, name, depth) if which == 0 else _table_func(family, name)
+
+
+def cases(tier):
+    for family in SLOTS:
+        for op in _ops(family):
+            if op.startswith("row_"):
+                continue     # no object alive at the root
+            yield Case("hist:%s:first=%s:depth=%d" % (family, op, _depth(tier, family)),
+                       {"kind": "hist", "family": family, "first": op, "depth": _depth(tier, family)}, True)
+    for kind in ("ft", "ftsh", "vk", "fried"):
+        yield Case("distinct_seeds:%s" % kind, {"kind": "distinct", "what": kind})
+    yield Case("unseeded_differ", {"kind": "unseeded"})
 
 
 class _W(ss.World):
-    """world whose unseeded object is abstracted in the key"""
+    """world whose unseeded objects are abstracted in the key"""
 
     def components(self):
         c = {}
+        fam = self.family
         for k, v in self.objects.items():
-            if k == "vkN":
-                c["obj:vkN"] = "unseeded:rows=%d" % self.objects["rows"].get("vkN", 0)
-            elif k == "rows":
+            if k == "rows":
                 c["rows"] = repr(sorted(v.items()))
+            elif SLOTS[fam][k][2] is None:
+                c["obj:" + k] = "unseeded:rows=%d" % self.objects["rows"].get(k, 0)
             else:
                 c["obj:" + k] = ss.obj_digest(v)
         st = numpy.random.get_state()
@@ -147,49 +222,55 @@ def evaluate(p):
     return _unseeded()
 
 
-def _apply(w, op):
-    rows = w.objects["rows"]
-    if op.startswith("new_"):
-        slot = op[4:]
-        w.objects[slot] = _new(slot)
-        rows[slot] = 0
+def _apply_factory(family):
+    def _apply(w, op):
+        rows = w.objects["rows"]
+        if op.startswith("new_"):
+            slot = op[4:]
+            w.objects[slot] = _new(*SLOTS[family][slot])
+            rows[slot] = 0
+            return None
+        if op.startswith("row_"):
+            slot = op[4:]
+            w.objects[slot].add_row()
+            rows[slot] += 1
+            return None
+        if op in FUNCS[family]:
+            return _fn(*FUNCS[family][op])
+        if op == "np_seed0":
+            numpy.random.seed(0)
+        elif op == "np_seed5":
+            numpy.random.seed(5)
+        elif op == "np_normal3":
+            numpy.random.standard_normal(3)
+        elif op == "np_shuffle":
+            numpy.random.shuffle(numpy.arange(5))
+        elif op == "opt_grouping":
+            from aotools.turbulence import profile_compression as pc
+            pc.optimal_grouping(2, 3, numpy.array([1., 2., 1., 3., 2., 1.]) * 1e-15,
+                                numpy.linspace(0, 10000., 6))
         return None
-    if op.startswith("row_"):
-        slot = op[4:]
-        w.objects[slot].add_row()
-        rows[slot] += 1
-        return None
-    if op in ("ft1", "ftsh1", "ftG", "ftN", "ftshN"):
-        return _fn(op)
-    if op == "np_seed0":
-        numpy.random.seed(0)
-    elif op == "np_seed5":
-        numpy.random.seed(5)
-    elif op == "np_normal3":
-        numpy.random.standard_normal(3)
-    elif op == "np_shuffle":
-        numpy.random.shuffle(numpy.arange(5))
-    elif op == "opt_grouping":
-        from aotools.turbulence import profile_compression as pc
-        pc.optimal_grouping(2, 3, numpy.array([1., 2., 1., 3., 2., 1.]) * 1e-15,
-                            numpy.linspace(0, 10000., 6))
-    return None
+    return _apply
 
 
 def _hist(p):
     from aotools.turbulence import infinitephasescreen as ips, phasescreen, turb
     o = Out()
-    depth = p["depth"]
+    depth, family = p["depth"], p["family"]
+    table = _TABLE
     numpy.random.seed(12345)            # owned: the initial global state is part of the input
-    table = _table(depth)
-    numpy.random.seed(12345)
     world = _W({"rows": {}}, modules=(ips, phasescreen, turb))
-    noise_seen = {"n": 0}
+    world.family = family
+    apply_op = _apply_factory(family)
+    seeded_slots = [s for s, v in SLOTS[family].items() if v[2] is not None]
+    seeded_funcs = [f for f, v in FUNCS[family].items() if v[2] is not None]
+    seeded_ops = set(["new_" + s for s in seeded_slots] + ["row_" + s for s in seeded_slots] + seeded_funcs)
+    interleaved = {"n": 0}
 
     def alphabet(w):
         live = w.objects["rows"]
         out = []
-        for op in OPS:
+        for op in _ops(family):
             if op.startswith("row_"):
                 slot = op[4:]
                 if slot not in live or live[slot] >= depth:
@@ -200,15 +281,16 @@ def _hist(p):
     def verify(hist, op, pre, w, result, loop):
         sub = "h=%s" % ",".join(hist + (op,))
         rows = w.objects["rows"]
-        for slot in SEEDED_SLOTS:
+        for slot in seeded_slots:
             if slot in rows:
                 o.check("seeded_object_equals_isolated_reference",
-                        _bytes(w.objects[slot].scrn) == table[(slot, rows[slot])], sub=sub + ":" + slot,
-                        detail={"slot": slot, "rows": rows[slot]})
-        if op in ("ft1", "ftsh1", "ftG"):
-            o.check("seeded_function_equals_isolated_reference", _bytes(result) == table[op], sub=sub)
+                        _bytes(w.objects[slot].scrn) == table[(family, slot)][rows[slot]], sub=sub + ":" + slot,
+                        detail={"slot": slot, "rows": rows[slot], "params": SLOTS[family][slot][1]})
+        if op in seeded_funcs:
+            o.check("seeded_function_equals_isolated_reference", _bytes(result) == table[(family, op)], sub=sub,
+                    detail={"params": FUNCS[family][op][1]})
         post = w.components()
-        if op in SEEDED_OPS:
+        if op in seeded_ops:
             o.check("seeded_op_leaves_global_rng_untouched",
                     pre["numpy.global_rng"] == post["numpy.global_rng"], sub=sub)
         # an operation on one object never changes another object
@@ -216,25 +298,24 @@ def _hist(p):
         others = [k for k in ss.changed(pre, post)
                   if k.startswith("obj:") and k != "obj:" + str(touched)]
         o.check("other_objects_untouched", not others, sub=sub, detail=others)
-        if any(h in NOISE for h in hist + (op,)):
-            noise_seen["n"] += 1
+        if len(set(hist + (op,))) > 1:
+            interleaved["n"] += 1
 
-    # root branch: apply the first operation, then search
     first = p["first"]
     pre = world.components()
-    res = _apply(world, first)
+    res = apply_op(world, first)
     verify((), first, pre, world, res, False)
-    st = ss.bfs(world, alphabet, _apply,
+    st = ss.bfs(world, alphabet, apply_op,
                 lambda hist, op, pre, w, result, loop: verify((first,) + hist, op, pre, w, result, loop),
                 depth - 1)
     o.stat("states", st["states"] + 1)
     o.stat("transitions", st["transitions"] + 1)
     o.stat("self_loops", st["self_loops"])
     o.stat("traces_validated_against_impl", st["transitions"] + 1)
-    o.stat("nontrivial", noise_seen["n"])
+    o.stat("nontrivial", interleaved["n"])
     if st["capped"]:
         o.stat("caps_hit", 1)
-    o.outcome(sorted((str(k), digest(v[2])) for k, v in table.items()))
+    o.outcome(sorted((str(k), digest(v)) for k, v in table.items() if k[0] == family))
     return o
 
 
@@ -242,38 +323,64 @@ def _distinct(what):
     from aotools.turbulence import infinitephasescreen as ips, phasescreen as ps
     o = Out()
     seen = {}
-    for seed in range(32):
+    ft = (FTB["r0"], FTB["N"], FTB["delta"], FTB["L0"], FTB["l0"])
+    for seed in list(range(32)) + BIG_SEEDS:
         if what == "ft":
-            a = ps.ft_phase_screen(*FT, seed=seed)
+            a = ps.ft_phase_screen(*ft, seed=seed)
         elif what == "ftsh":
-            a = ps.ft_sh_phase_screen(*FT, seed=seed)
+            a = ps.ft_sh_phase_screen(*ft, seed=seed)
         elif what == "vk":
-            s = ips.PhaseScreenVonKarman(*VK, random_seed=seed)
+            s = _new("vk", VKB, seed)
             s.add_row()
             a = s.scrn
         else:
-            s = ips.PhaseScreenKolmogorov(*FR, random_seed=seed)
+            s = _new("fr", FRB, seed)
             s.add_row()
             a = s.scrn
         d = digest(a)
         o.check("different_seeds_give_different_screens", d not in seen, sub="%s:seed=%d" % (what, seed),
                 detail={"same_as_seed": seen.get(d)})
         seen[d] = seed
-        # and the same seed again gives the same bytes (fresh call, nothing interleaved)
+        # the same seed again gives the same bytes
         if what == "ft":
-            b = ps.ft_phase_screen(*FT, seed=seed)
-            o.check("same_seed_same_bytes", _bytes(a) == _bytes(b), sub="%s:seed=%d" % (what, seed))
-    o.stat("lib_calls", 32)
+            b = ps.ft_phase_screen(*ft, seed=seed)
+        elif what == "ftsh":
+            b = ps.ft_sh_phase_screen(*ft, seed=seed)
+        elif what == "vk":
+            s = _new("vk", VKB, seed)
+            s.add_row()
+            b = s.scrn
+        else:
+            s = _new("fr", FRB, seed)
+            s.add_row()
+            b = s.scrn
+        o.check("same_seed_same_bytes", _bytes(a) == _bytes(b), sub="%s:seed=%d" % (what, seed))
+    o.stat("lib_calls", 2 * (32 + len(BIG_SEEDS)))
     return o
 
 
 def _unseeded():
-    from aotools.turbulence import infinitephasescreen as ips, phasescreen as ps
+    from aotools.turbulence import phasescreen as ps
     o = Out()
-    for name, f in (("ft", lambda: ps.ft_phase_screen(*FT)), ("ftsh", lambda: ps.ft_sh_phase_screen(*FT)),
-                    ("vk", lambda: ips.PhaseScreenVonKarman(*VK).scrn),
-                    ("fried", lambda: ips.PhaseScreenKolmogorov(*FR).scrn)):
-        a = f()
-        b = f()
-        o.check("unseeded_calls_differ", _bytes(a) != _bytes(b), sub=name)
+    ft = (FTB["r0"], FTB["N"], FTB["delta"], FTB["L0"], FTB["l0"])
+
+    def rows(kind, base):
+        def f():
+            s = _new(kind, base, None)
+            a = numpy.array(s.scrn)
+            s.add_row()
+            return numpy.concatenate([a.ravel(), numpy.asarray(s.scrn).ravel()])
+        return f
+    saved = numpy.random.get_state()
+    for name, f in (("ft", lambda: ps.ft_phase_screen(*ft)), ("ftsh", lambda: ps.ft_sh_phase_screen(*ft)),
+                    ("vk", rows("vk", VKB)), ("fried", rows("fr", FRB))):
+        # every way the history can prepare NumPy's global generator before the two calls
+        for prep_name, prep in (("none", lambda: None), ("np_seed3_before_each", lambda: numpy.random.seed(3)),
+                                ("set_state_before_each", lambda: numpy.random.set_state(saved))):
+            prep()
+            a = f()
+            prep()
+            b = f()
+            o.check("unseeded_calls_differ", _bytes(a) != _bytes(b), sub="%s:global=%s" % (name, prep_name))
+    o.stat("lib_calls", 24)
     return o
